@@ -185,6 +185,7 @@ theorem step_keeps_orig (valid : Str → Bool) (c : Ctx) (e : Ev) :
   | headers l => simp only [step]; split <;> simp [applyX]
   | finish => simp [step, unapplyX]
   | close => simp [step, unapplyX]
+  | finishRaises => simp [step]
 
 /-- `no_leak` for keep-alive request sequences: every request on a connection observes exactly what it would observe
     as the only request of a fresh connection, and the context ends restored — for every sequence of header blocks. -/
@@ -246,5 +247,187 @@ theorem leak_without_finish :
       (step valid (step valid c (.headers l1)).1 (.headers l2)).2 ≠ (step valid c (.headers l2)).2 := by
   refine ⟨fun _ => true, Ctx.init [57] cHttp [], [C43.ofAscii "X-Real-Ip: 1"], [], ?_⟩
   decide
+
+/-- a delegate that raises in `finish` skips the restore: the context stays rewritten (the real connection is closed
+    right after — `_server_request_loop` — so there is no later request; the tie checks that none is served) -/
+theorem finish_raises_keeps_rewrite (valid : Str → Bool) (c : Ctx) :
+    (step valid c .finishRaises).1 = c := rfl
+
+/-! ### no leak on a whole connection, including the ways a connection ends early -/
+
+theorem run_cons (valid : Str → Bool) (c : Ctx) (e : Ev) (es : List Ev) :
+    run valid c (e :: es) =
+      ((run valid (step valid c e).1 es).1, (step valid c e).2 :: (run valid (step valid c e).1 es).2) := by
+  simp only [run]
+
+theorem isRequest_none : Obs.none.isRequest = false := rfl
+
+theorem step_headers_ok (valid : Str → Bool) (s p : Str) (t : List Str) (r : List Str) (h : Headers)
+    (hp : parseBlock r = .ok h) :
+    (step valid (Ctx.init s p t) (.headers r)).2 = observe valid s p t r ∧
+    (observe valid s p t r).isRequest = true ∧
+    unapplyX (step valid (Ctx.init s p t) (.headers r)).1 = Ctx.init s p t := by
+  refine ⟨rfl, ?_, ?_⟩
+  · simp only [observe, step, hp, Obs.isRequest]
+  · simp only [step, hp, unapply_restores]; rfl
+
+/-- `no_leak_conn`: on a connection driven the way `_server_request_loop` drives it — keep-alive requests, then possibly
+    one that ends it (not kept alive, delegate raising in `finish` so that the restore is SKIPPED, peer leaving inside
+    the body, header block refused with 400) — the request objects built are exactly those of the requests that reach
+    the application (`servedReqs`), and each one is what that request observes alone on a fresh connection. -/
+theorem no_leak_conn (valid : Str → Bool) (s p : Str) (t : List Str) (reqs : List (List Str × Outcome)) :
+    (run valid (Ctx.init s p t) (connEvents reqs)).2.filter Obs.isRequest =
+      (servedReqs reqs).map (observe valid s p t) := by
+  induction reqs with
+  | nil => rfl
+  | cons ro rest ih =>
+    obtain ⟨r, o⟩ := ro
+    cases hp : parseBlock r with
+    | error e =>
+      simp only [connEvents, servedReqs, hp, run_cons, run, List.map_nil]
+      simp [step, hp, Obs.isRequest]
+    | ok h =>
+      obtain ⟨h1, h2, h3⟩ := step_headers_ok valid s p t r h hp
+      cases o with
+      | keep =>
+        simp only [connEvents, servedReqs, hp, run_cons, List.map_cons, h1]
+        have hf : (step valid (step valid (Ctx.init s p t) (.headers r)).1 .finish).1 = Ctx.init s p t := h3
+        have hn : (step valid (step valid (Ctx.init s p t) (.headers r)).1 .finish).2 = Obs.none := rfl
+        rw [hf, hn]
+        simp only [List.filter_cons, h2, if_true, isRequest_none, Bool.false_eq_true, if_false, ih]
+      | last =>
+        simp only [connEvents, servedReqs, hp, run_cons, run, List.map_cons, List.map_nil, h1]
+        simp [List.filter_cons, h2, step, isRequest_none]
+      | raises =>
+        simp only [connEvents, servedReqs, hp, run_cons, run, List.map_cons, List.map_nil, h1]
+        simp [List.filter_cons, h2, step, isRequest_none]
+      | abort =>
+        simp only [connEvents, servedReqs, hp, run_cons, run, List.map_cons, List.map_nil, h1]
+        simp [List.filter_cons, h2, step, isRequest_none]
+
+/-- non-vacuity: a connection with a rewriting request, a raising one and one that is never read -/
+example : servedReqs [([C43.ofAscii "X-Real-Ip: 1"], .keep), ([C43.ofAscii "X-Real-Ip: 2"], .raises), ([], .keep)] =
+    [[C43.ofAscii "X-Real-Ip: 1"], [C43.ofAscii "X-Real-Ip: 2"]] := by decide
+
+/-! ### "a numeric IP address" (`Spec.numericIP`, written from inet(3)/RFC 4291/RFC 4007 — not from `is_valid_ip`) -/
+
+/-- contract of the platform resolver as seen through `valid`: what it accepts is numeric-host text -/
+def ResolverNumeric (valid : Str → Bool) : Prop := ∀ s, valid s = true → Spec.numericIP s = true
+/-- … and it accepts every plain IPv4/IPv6 address (C43's `valid_ip_spec` contract) -/
+def ResolverPlain (valid : Str → Bool) : Prop := ∀ s, Spec.plainIP s = true → valid s = true
+
+/-- the invariant: the context shows the socket address or a numeric IP address -/
+def NumericOrSocket (c : Ctx) : Prop := c.remoteIp = c.origIp ∨ Spec.numericIP c.remoteIp = true
+
+theorem step_numeric (valid : Str → Bool) (hc : ResolverNumeric valid) (c : Ctx) (e : Ev) (hi : NumericOrSocket c) :
+    NumericOrSocket (step valid c e).1 ∧
+    ∀ ip pr, (step valid c e).2 = .request ip pr → ip = c.origIp ∨ Spec.numericIP ip = true := by
+  cases e with
+  | headers l =>
+    simp only [step]
+    cases parseBlock l with
+    | error e => exact ⟨hi, by intro ip pr h; cases h⟩
+    | ok h =>
+      have key : (applyX valid c h).remoteIp = c.origIp ∨ Spec.numericIP (applyX valid c h).remoteIp = true := by
+        rcases remote_ip_valid_or_socket valid c h with h1 | h1
+        · rw [h1]; exact hi
+        · right; exact hc _ h1
+      have ho : (applyX valid c h).origIp = c.origIp := by simp [applyX]
+      refine ⟨?_, ?_⟩
+      · simp only [NumericOrSocket, ho]; exact key
+      · intro ip pr hreq
+        simp only [Obs.request.injEq] at hreq
+        rw [← hreq.1]; exact key
+  | finish => exact ⟨Or.inl (by simp [step, unapplyX]), by intro ip pr h; simp [step] at h⟩
+  | close => exact ⟨Or.inl (by simp [step, unapplyX]), by intro ip pr h; simp [step] at h⟩
+  | finishRaises => exact ⟨hi, by intro ip pr h; simp [step] at h⟩
+
+/-- `remote_ip_numeric_trace`: on EVERY event trace (well-formed or not — no reliance on C05) from a context that shows
+    the socket address or a numeric address, every request object's `remote_ip` is the socket address or a numeric IP
+    address in the sense of `Spec.numericIP` — given only that the resolver accepts nothing but numeric-host text. -/
+theorem remote_ip_numeric_trace (valid : Str → Bool) (hc : ResolverNumeric valid) (c : Ctx) (hi : NumericOrSocket c)
+    (es : List Ev) :
+    ∀ o ∈ (run valid c es).2, ∀ ip pr, o = .request ip pr → ip = c.origIp ∨ Spec.numericIP ip = true := by
+  induction es generalizing c with
+  | nil => intro o ho; simp [run] at ho
+  | cons e es ih =>
+    intro o ho ip pr hreq
+    simp only [run, List.mem_cons] at ho
+    have hs := step_numeric valid hc c e hi
+    rcases ho with ho | ho
+    · exact hs.2 ip pr (ho ▸ hreq)
+    · have := ih (step valid c e).1 hs.1 o ho ip pr hreq
+      rw [(step_keeps_orig valid c e).1] at this
+      exact this
+
+/-- `remote_ip_numeric`: every request of every keep-alive sequence on a connection from socket address `s` has
+    `remote_ip = s` or a numeric IP address. -/
+theorem remote_ip_numeric (valid : Str → Bool) (hc : ResolverNumeric valid) (s p : Str) (t : List Str)
+    (reqs : List (List Str)) :
+    ∀ o ∈ (serve valid (Ctx.init s p t) reqs).2, ∀ ip pr, o = .request ip pr → ip = s ∨ Spec.numericIP ip = true :=
+  remote_ip_numeric_trace valid hc (Ctx.init s p t) (Or.inl rfl) _
+
+/-- non-vacuity: `Spec.numericIP` itself is a resolver satisfying both contracts' shape, and the predicate separates
+    addresses from the near misses the generators use -/
+example : ResolverNumeric Spec.numericIP := fun _ h => h
+example : Spec.numericIP (C43.ofAscii "1.2.3.4") = true ∧ Spec.numericIP (C43.ofAscii "127.1") = true ∧
+    Spec.numericIP (C43.ofAscii "0x7f.1") = true ∧ Spec.numericIP (C43.ofAscii "fe80::1%lo") = true ∧
+    Spec.numericIP (C43.ofAscii "::ffff:1.2.3.4") = true ∧
+    Spec.numericIP (C43.ofAscii "1.2.3.256") = false ∧ Spec.numericIP (C43.ofAscii "1.2.3.4.5") = false ∧
+    Spec.numericIP (C43.ofAscii "::::") = false ∧ Spec.numericIP (C43.ofAscii "08.1.1.1") = false ∧
+    Spec.numericIP (C43.ofAscii "fe80::1%lo:<script>") = false ∧ Spec.numericIP (C43.ofAscii "4.4.4.4<script>") = false ∧
+    Spec.numericIP [] = false := by decide
+
+/-- the model of the fixed `is_valid_ip` meets `ResolverNumeric` as soon as the raw resolver does so on the strings that
+    reach it: non-empty ASCII text without NUL whose zone id has no ":" (the contract is FALSE without these guards:
+    IDNA maps "1.2.3.4\xad" to an address, Linux reads the interface "lo:<anything>" as "lo" — the two `fix:` commits) -/
+theorem isValidIp_numeric (gai : Str → Bool)
+    (hg : ∀ s, s ≠ [] → 0 ∉ s → C43.isAscii s = true → 58 ∉ zoneOf s → gai s = true → Spec.numericIP s = true) :
+    ResolverNumeric (isValidIp gai) := by
+  intro s h
+  unfold isValidIp at h
+  split at h
+  · exact absurd h (by simp)
+  · rename_i h1
+    split at h
+    · exact absurd h (by simp)
+    · rename_i h2
+      simp only [Bool.or_eq_true, Bool.not_eq_true', not_or, Bool.not_eq_true, Bool.not_eq_false] at h1
+      refine hg s ?_ ?_ h1.2 ?_ h
+      · intro e; subst e; simp at h1
+      · intro hm; have : s.contains 0 = true := by simpa using hm
+        rw [h1.1.2] at this; exact Bool.noConfusion this
+      · intro hm; exact h2 (by simpa using hm)
+
+/-- the fixed `is_valid_ip` refuses the witness of the finding whatever the resolver says -/
+example (gai : Str → Bool) : isValidIp gai (C43.ofAscii "fe80::1%lo:<script>") = false := by
+  have h0 : ((C43.ofAscii "fe80::1%lo:<script>").isEmpty || (C43.ofAscii "fe80::1%lo:<script>").contains 0 ||
+      !C43.isAscii (C43.ofAscii "fe80::1%lo:<script>")) = false := by decide
+  have h1 : (zoneOf (C43.ofAscii "fe80::1%lo:<script>")).contains 58 = true := by decide
+  simp only [isValidIp, h0, h1, Bool.false_eq_true, if_false, if_true]
+
+/-- `remote_ip_allowed`: outside the all-trusted situation, `remote_ip` is one of the addresses the literal reading
+    allows (`Spec.allowedOf`, which does not mention `is_valid_ip`): the candidate if it is a plain address, the socket
+    address if it is not numeric, either for the platform-dependent numeric forms. -/
+theorem remote_ip_allowed (valid : Str → Bool) (hn : ResolverNumeric valid) (hp : ResolverPlain valid)
+    (s p : Str) (t : List Str) (h : Headers)
+    (hs : (splitAll 44 s).map strip = [s]) (ha : Spec.allTrusted t h = false) :
+    (applyX valid (Ctx.init s p t) h).remoteIp ∈ Spec.allowedOf s t h := by
+  rw [remote_ip_spec_partial valid s p t h hs ha]
+  simp only [Spec.remoteIpOf, Spec.remoteIp, Spec.allowedOf, Spec.allowed]
+  cases Spec.candidate t (hget h "X-Forwarded-For") (hget h "X-Real-Ip") with
+  | none => simp
+  | some c =>
+    simp only []
+    by_cases h1 : Spec.plainIP c = true
+    · simp [h1, hp c h1]
+    · by_cases h2 : Spec.numericIP c = true
+      · simp only [h1, h2, if_true, Bool.false_eq_true, if_false]
+        split <;> simp
+      · have : valid c = false := by
+          cases hv : valid c with
+          | false => rfl
+          | true => exact absurd (hn c hv) h2
+        simp [h1, h2, this]
 
 end TornadoModel.C32
